@@ -139,4 +139,130 @@ PROPS = {
                      "uom quantities are the identity on SI base values"],
         findings_notes=["step_over_known"],
     ),
+    "C16": dict(
+        lean_modules=["AlphaG.Props.C16"],
+        required_theorems=["AlphaG.Helix.closest_t_range", "AlphaG.Helix.closest_t_range_real",
+                           "AlphaG.Helix.circle_case_optimal"],
+        harness=[("c16", ["release"])],
+        disagreement_is_failing_input=False,
+        level_text="Lean theorems: for any carrier with a linear order and an atan2 of range [-pi, pi] the value returned by "
+                   "closest_t lies in [-pi, pi], whatever the pitch, tolerance or Newton iteration count (closest_t_range); "
+                   "over the reals, for pitch exactly 0 the returned t minimises the distance over all t "
+                   "(circle_case_optimal, via |w| = Re(conj w e^{i arg w})). The optimality claim for h != 0 is decided on the "
+                   "implementation by an independent oracle (dense grid + golden-section refinement), i.e. by search.",
+        level_note="Partial: no theorem states that the Newton root reached in <= 20 f64 iterations is the global minimiser for "
+                   "h != 0 (Kepler's equation has several roots for e > 1), nor NaN-freedom in f64; both are sampled on the "
+                   "real code (85 k strictly-inside cases in the thorough tier, none further than 1e-9 m from the grid "
+                   "optimum). The Float model uses sqrt(x^2+y^2) for hypot and is compared to 1e-9, not bit-exactly.",
+        technique="carrier-generic Lean model; theorem over any linear order + Mathlib real/complex analysis for the circle "
+                  "case; implementation oracle by dense search; tolerance-based correspondence check",
+        design_ref="DESIGN.md section 6, C16",
+        rule="cases: helix centre within +-3 m, radius 0.03-5 m (log-uniform), any phase, pitch in {0, +-subnormal, "
+             "eps/2..2eps, +-1e-17..+-1e2}; points anywhere in the drift volume, within 1 cm of the helix, "
+             "eccentricity-targeted (e = 4 pi^2 rho R / h^2 in [0.5, 200]) and track-like; distinct by request line; "
+             "non-trivial = the oracle's optimality check applies (t strictly inside (-pi, pi)), counted in notes",
+        assumptions=["uom quantities are the identity on SI base values",
+                     "the oracle's grid (4096 points quick, 16384 thorough, each local minimum refined) finds the global minimum to well below 1e-9 m"],
+    ),
+    "C03": dict(
+        lean_modules=["AlphaG.Props.C03", "AlphaG.Lemmas.CrcOrbit", "AlphaG.Lemmas.Crc", "AlphaG.Model.Crc"],
+        required_theorems=["AlphaG.Chunk.chunk_accept_iff", "AlphaG.Chunk.chunk_fields", "AlphaG.Chunk.chunk_roundtrip",
+                           "AlphaG.Chunk.chunk_total", "AlphaG.Chunk.chunk_accessors_total",
+                           "AlphaG.Chunk.chunk_header_crc32c", "AlphaG.Chunk.chunk_payload_crc32c",
+                           "AlphaG.Chunk.detect_odd", "AlphaG.Chunk.detect_burst32", "AlphaG.Chunk.detect_two",
+                           "AlphaG.Chunk.detect_upto3", "AlphaG.Crc.no_return", "AlphaG.Crc.run_xor",
+                           "AlphaG.Crc.runBytes_eq_run"],
+        harness=[("c03", ["dev", "release"])],
+        level_text="Lean theorems over all byte strings: accept iff the documented layout incl. both stored CRC-32C words "
+                   "(chunk_accept_iff), accessors = fields, exact re-encoding (chunk_roundtrip), totality; and the "
+                   "error-detection claims for every accepted chunk of any payload length: any odd number of flipped bits "
+                   "(detect_odd), any burst of <= 32 contiguous bits at any offset incl. across region boundaries "
+                   "(detect_burst32), any two flipped bits (detect_two) — by GF(2)-linearity of the CRC register, the parity "
+                   "invariant, register injectivity, and the order of x modulo the polynomial exceeding the longest region "
+                   "(16 kernel-evaluated orbit segments).",
+        level_note="Trusted: the crc32c crate equals the bitwise LFSR model beyond the sampled inputs (lengths 0..70 "
+                   "exhaustive-ish, random to 70 KiB); the hand-written decoder model is tied to Chunk::try_from by the "
+                   "differential run (every single-bit flip and every burst <= 32 of small chunks, stratified payload "
+                   "lengths 1..=65535). 4+ scattered bit errors are not claimed by the property.",
+        technique="Lean 4 kernel proofs (linearity + residue form of CRC-32C, decide +kernel orbit segments) over a "
+                  "hand-written model + differential correspondence check",
+        design_ref="DESIGN.md section 6, C03",
+        rule="generators: valid chunks with payload lengths 1..300, 2^k+-1, 65532..65535; all 71 boards x field boundaries; "
+             "chip/flags 0..255; declared length +-8; padding; both CRC words bitwise; every single-bit flip, sampled "
+             "pairs/triples, every burst <= 32 at every offset of small chunks and region boundaries of large ones; crc of "
+             "lengths 0..70 and random to 70 KiB vs the crate; distinct by request line",
+        assumptions=["the crc32c crate (incl. its hardware path) computes CRC-32C; compared with the model on sampled inputs",
+                     "&[u8] lengths are <= isize::MAX, so `len + 4` in an error value cannot overflow"],
+    ),
+    "C04": dict(
+        lean_modules=["AlphaG.Props.C04"],
+        required_theorems=["AlphaG.Pwb." + t for t in [
+            "reassemble_sort_irrelevant", "reassemble_perm", "reassemble_perm_eq", "reassemble_ok_eq_direct",
+            "reassemble_fails_if_missing_id", "reassemble_fails_if_duplicated_id", "reassemble_fails_if_two_boards",
+            "reassemble_fails_if_two_chips", "reassemble_fails_if_eom_absent_on_last",
+            "reassemble_fails_if_eom_on_earlier", "reassemble_fails_if_nonfinal_size_differs", "reassemble_total",
+            "sortById_spec"]],
+        harness=[("c04", ["dev", "release"])],
+        level_text="Lean theorems for chunk lists of any length: the outcome is the same for every permutation "
+                   "(reassemble_perm_eq) and for every sorted permutation a sort could return (reassemble_sort_irrelevant), "
+                   "success equals the direct decode of the payloads concatenated in chunk-id order, each listed fault "
+                   "(missing/duplicated id, two boards, two chips, EOM absent on last / present earlier, non-final size) is "
+                   "rejected, and no panic for decoded chunks.",
+        level_note="Trusted: slice::sort_unstable_by_key returns a sorted permutation (the theorems hold for any such); chunk "
+                   "values satisfy the invariant Chunk::try_from establishes (proved for the byte decoder in C03). Tied to "
+                   "PwbV2Packet::try_from(Vec<Chunk>) by the differential run over all n! orders (n <= 6) of real CRC-valid "
+                   "chunks and every single fault.",
+        technique="Lean 4 theorems over a hand-written model (sort abstracted to any sorted permutation) + differential "
+                  "correspondence check",
+        design_ref="DESIGN.md section 6, C04",
+        rule="cases: real CRC-valid chunk byte strings decoded by Chunk::try_from; all n! orders for n <= 6 (thorough 7), cut "
+             "sizes 1..65535, every single fault (drop, duplicate, foreign board/chip, EOM toggle, resize, id replaced, bad "
+             "payload) in several orders, double faults, ties; distinct by request line",
+        assumptions=["sort_unstable_by_key contract: sorted permutation", "ChunkV.Valid is established by Chunk::try_from (C03)"],
+    ),
+    "C05": dict(
+        lean_modules=["AlphaG.Props.C05"],
+        required_theorems=["AlphaG.Pwb." + t for t in [
+            "pwb_accept_iff", "pwb_fields", "pwb_channels_sent", "readout_bijective", "pwb_waveform", "pwb_roundtrip",
+            "pwb_total", "waveformAt_total", "baseline_total"]],
+        harness=[("c05", ["dev", "release"])],
+        level_text="Lean theorems over all payloads: accept iff the documented little-endian layout (pwb_accept_iff), every "
+                   "accessor = its field, sent/threshold lists = set bits of the 80-bit masks in ascending order mapped by the "
+                   "readout table (pwb_channels_sent; the while/leading_zeros loop is proved to enumerate them), the readout "
+                   "map is a bijection of 1..=79 onto 3 reset + 4 FPN + 72 pads, every sent channel's waveform is exactly the "
+                   "requested samples of its block and absent otherwise, exact re-encoding, totality.",
+        level_note="Trusted: the hand-written model of PwbV2Packet::try_from(&[u8]) and waveform_at is tied to the code by "
+                   "the differential run (all 79 single-channel masks, requested 0/1/2/3/510/511, bytes 0-3 over 0..=255, "
+                   "every length, every per-block perturbation, single-bit flips), not proved equal to it.",
+        technique="Lean 4 theorems over a hand-written model + differential correspondence check",
+        design_ref="DESIGN.md section 6, C05",
+        rule="generators: 79 single-channel masks x requested {0,1,2,3,510,511,random}, full/random masks, header bytes 0..=255, "
+             "field boundaries, MAC table and bit flips, lengths 0..len+8, block header/pad/marker perturbations, bit 79 of both "
+             "masks, all mask bit flips, single-bit flips, random; distinct by request line",
+        assumptions=["PADWING_BOARDS is regenerated from the source on every run (translator)"],
+    ),
+    "C02": dict(
+        lean_modules=["AlphaG.Props.C02"],
+        required_theorems=["AlphaG.Adc." + t for t in [
+            "adc_accept_iff", "adc_fields", "adc_waveform", "adc_roundtrip", "adc_roundtrip_exact",
+            "adc_decode_injective", "adc_baseline_floor", "adc_baseline_accepted", "adc_total", "adcPacket_total",
+            "adc_no_overflow", "adc_encode_decode_partial"]],
+        harness=[("c02", ["dev", "release"])],
+        level_text="Lean theorems over all byte strings: accept iff the documented layout and consistency rules incl. the floor "
+                   "baseline and the keep_last/keep_bit/suppression ladder with requested_samples >= 2 explicit (adc_accept_iff), "
+                   "every accessor = its big-endian field with two's-complement signedness (adc_fields, adc_waveform), "
+                   "re-encoding = input modulo the two unused footer bits (adc_roundtrip) and injectivity of decoding modulo "
+                   "those bits, floor-division baseline, totality and absence of usize overflow.",
+        level_note="decode(encode p) = p is proved for the 16-byte form only (adc_encode_decode_partial; long form sampled by "
+                   "the harness). The hand-written model is tied to AdcV3Packet::try_from by the differential run in dev and "
+                   "release builds (full decision table of the property's quantifier, all single-bit flips, all truncations) "
+                   "with an independent well-formedness predicate and re-encoder as oracle. Repaired defect F1 "
+                   "(requested_samples < 2) is reported again if it returns. Display is not covered.",
+        technique="Lean 4 theorems over a hand-written guard-chain model + differential correspondence check (dev + release)",
+        design_ref="DESIGN.md section 6, C02",
+        rule="generators: valid builders (short/long/131 KB), decision table supp x keep_bit x keep_last x requested x n x "
+             "contents, baseline residues and variants, short-form footers, MAC perturbations, per-byte boundary and all values, "
+             "all single-bit flips, all truncations/extensions, random, id conversions; distinct by request line",
+        assumptions=["ALPHA16BOARDS is regenerated from the source on every run (translator)"],
+    ),
 }
